@@ -262,6 +262,7 @@ func checkC16Bad(job *Job, res *Result) {
 		sha := catSetup(by)
 		by.Do("SET", "bystander", "b", "POINT", "7", "7")
 		refGet := by.Do("GET", "bystander", "b").String()
+		leakSeen := false
 		check := func(label string, input []byte) bool {
 			c := x.Dial(in.Addr)
 			done := res.Pending("C16/server-dies-or-spins:"+label, fmt.Sprintf("the server process did not survive input %q (fatal runtime error, or a thread spinning for more than 60 s of real time)", input), map[string]any{"input": fmt.Sprintf("%q", input)})
@@ -281,6 +282,14 @@ func checkC16Bad(job *Job, res *Result) {
 			if len(vsched.Crashes) > 0 {
 				res.Violate("C16/server-crash:"+label, fmt.Sprintf("input %q crashed server thread %s: %s", input, vsched.Crashes[0].Thread, vsched.Crashes[0].Value), map[string]any{"input": fmt.Sprintf("%q", input)})
 				return false
+			}
+			// pooled script interpreters: at quiescence every one that was handed out is back
+			in.S.luapool.m.Lock()
+			out := in.S.luapool.total - len(in.S.luapool.saved)
+			in.S.luapool.m.Unlock()
+			if out != 0 && !leakSeen {
+				leakSeen = true
+				res.Violate("C16/interpreter-leaked:"+label, fmt.Sprintf("after input %q %d script interpreter(s) handed out by the pool were never returned (the pool refuses scripts for everybody once %d are missing)", input, out, maxLuaPoolSize), map[string]any{"input": fmt.Sprintf("%q", input)})
 			}
 			if g := by.Do("GET", "bystander", "b").String(); g != refGet {
 				res.Violate("C16/bystander-affected:"+label, fmt.Sprintf("after input %q on another connection the bystander's GET replied %s (before: %s)", input, vclip(g, 100), refGet), map[string]any{"input": fmt.Sprintf("%q", input)})
